@@ -10,6 +10,19 @@ TRUST = ('Trusted base: cbmc/goto-cc/goto-instrument 6.11.0 + SAT back end; the 
          'bit-precise x86-64 LP64 arithmetic; symbolic buffers capped at 1e6 bytes. ')
 
 CLAIMED = {
+ 'C01': dict(
+    text='Slice: the FastCGI length/name-value decoder (read_len, parse_pairs), the FastCGI record cache (peek/skip/read_bytes, async_read_from_socket, on_some_read_from_socket, '
+         'non_blocking_read_record: the delivered bytes are a prefix of the received bytes however the stream is cut), the SCGI netstring reader, and util::urldecode are under contract for all inputs.',
+    note=TRUST + 'Covered only as a slice: end-to-end equality of the request seen through HTTP/SCGI/FastCGI (goes through cppcms::service and the event loop), the embedded HTTP parser, '
+         'cookies/forms and keep-alive sequencing are NOT covered. std::vector buffers are modelled as a fixed-capacity object with a logical size; string pool / environment map are stubs.',
+    design='4 (C01/C02/C12)', technique='cbmc code contracts (dfcc) + loop contracts on extracted C; representation invariant of the record cache'),
+ 'C02': dict(
+    text='For arbitrary peer bytes every extracted FastCGI and SCGI protocol callback (on_start_request, params_record_expected, stdin_eof_expected, on_header_read, on_body_read, '
+         'non_blocking_read_record, cache functions, scgi on_first_read / on_headers_chunk_read) is memory safe, keeps its buffers within a fixed bound, and uses the completion handler '
+         'exactly once (ghost counter). Five genuine defects were found by these obligations, replayed on the real code and fixed (known_findings.txt).',
+    note=TRUST + 'Not covered: event-loop survival and isolation of other connections (whole-process/schedule property), the embedded HTTP front end, multipart upload errors. '
+         'Collaborators (socket, string pool, env map, atoi/atoll, strlen, memcpy) are stubs with assumed contracts that assert the ranges they are given.',
+    design='4 (C01/C02/C12)', technique='cbmc code contracts (dfcc) + loop contracts; ghost handler-exactly-once counter; stubs asserting buffer ranges'),
  'C14': dict(
     text='Function contracts written from RFC 3629 and from the property text are enforced by cbmc (dfcc) on the mechanically extracted bodies of '
          'both UTF-8 decoders, utf8::validate, utf8::encode, all 17 single-byte validators and the two filter functions of encoding.cpp, for all inputs '
@@ -25,6 +38,13 @@ CLAIMED = {
     note=TRUST + 'Outputs (std::string, streambuf, output iterators) are a scalar ghost sink; sscanf(%x) is a stub with the C99 contract. Not covered: template filters and form widgets (call-site fact), '
          'the std::string wrappers of b64url, the string-level concatenation step of the URL round trip (meta-argument over the segment contracts). Bounded: b64url::encode/decode pointer loops up to 12 input bytes.',
     design='4 (C15)', technique='cbmc code contracts (dfcc) + loop contracts with a scalar ghost sink; bounded unwinding for the base64 pointer loops'),
+ 'C16': dict(
+    text='The bundled MD5 compression function is proved equal to RFC 1321 (64 assert-then-assume cut points against a ghost state machine whose T table is computed from sin(i) as the RFC defines; '
+         'both the aligned and the unaligned data path), the bundled SHA-1 compression function to FIPS 180-4 (message schedule at an arbitrary ghost index; round loop in lock step with a ghost FIPS round), '
+         'plus initial values and rotate. All obligations are for every block and every chaining value.',
+    note=TRUST + 'Only the compression functions, initial values and rotate are under contract: the streaming layer (padding, chunking: md5_append/md5_finish, sha1::process_byte/get_digest), HMAC, hex key parsing, '
+         'SHA-2 and AES-CBC (OpenSSL/libgcrypt, external) and agreement of bundled vs. library implementations are NOT covered. Overflow checks are off (modular arithmetic by definition).',
+    design='4 (C16)', technique='cbmc: cut-point (assert-then-assume) equivalence per step, loop contracts with ghost lock-step state machine'),
  'C19': dict(
     text='The chunk reader/writer of cppcms::archive (next_chunk_size, read_chunk, read_chunk_as_string, write_chunk, eof) and the POD-vector load body are under contract: '
          'for every archive content, length and cursor a read either throws or stays inside the archive bytes and returns exactly the payload; '
